@@ -689,22 +689,24 @@ func rulePullError(c *Ctx, rule string) {
 	fn := c.fn("align/pals", "(*PALS).Align")
 	c.Funcs[funcName(fn)] = true
 	n := 0
-	for _, b := range fn.Blocks {
-		for _, ins := range b.Instrs {
-			call, ok := ins.(*ssa.Call)
-			if !ok {
-				continue
-			}
-			sf := call.Call.StaticCallee()
-			if sf == nil || sf.Name() != "Pull" || !strings.HasSuffix(funcName(sf), "Morass).Pull") {
-				continue
-			}
-			n++
-			key := fmt.Sprintf("pals.(*PALS).Align/morass.Pull#%d", n)
-			if errorSinks(call, nil) {
-				c.ok(rule, key, call.Pos(), "the error of Pull reaches a return")
-			} else {
-				c.bad(rule, key, call.Pos(), "the error of morass.Pull is only tested, never returned: io.EOF and a failed read of a run file both end the loop, the hits after the failing record are dropped, and Align reports success with fewer (or no) alignments")
+	for _, pf := range privateReach(fn) {
+		for _, b := range pf.Blocks {
+			for _, ins := range b.Instrs {
+				call, ok := ins.(*ssa.Call)
+				if !ok {
+					continue
+				}
+				sf := call.Call.StaticCallee()
+				if sf == nil || sf.Name() != "Pull" || !strings.HasSuffix(funcName(sf), "Morass).Pull") {
+					continue
+				}
+				n++
+				key := fmt.Sprintf("pals.(*PALS).Align/morass.Pull#%d", n)
+				if errorSinks(call, nil) {
+					c.ok(rule, key, call.Pos(), "the error of Pull reaches a return")
+				} else {
+					c.bad(rule, key, call.Pos(), "the error of morass.Pull is only tested, never returned: io.EOF and a failed read of a run file both end the loop, the hits after the failing record are dropped, and Align reports success with fewer (or no) alignments")
+				}
 			}
 		}
 	}
@@ -721,54 +723,58 @@ func ruleSelfStrand(c *Ctx, rule string) {
 	key := "pals.(*PALS).Align/merger-self-flag-per-strand"
 	complement := fn.Params[1]
 	n := 0
-	for _, b := range fn.Blocks {
-		for _, ins := range b.Instrs {
-			call, ok := ins.(*ssa.Call)
-			if !ok {
-				continue
-			}
-			sf := call.Call.StaticCallee()
-			if sf == nil || sf.Name() != "NewMerger" {
-				continue
-			}
-			n++
-			arg := call.Call.Args[len(call.Call.Args)-1]
-			// does the flag depend on the strand?
-			depends := false
-			var walk func(v ssa.Value, d int)
-			walk = func(v ssa.Value, d int) {
-				if d > 5 {
-					return
+	for _, pf := range privateReach(fn) {
+		for _, b := range pf.Blocks {
+			for _, ins := range b.Instrs {
+				call, ok := ins.(*ssa.Call)
+				if !ok {
+					continue
 				}
-				if v == ssa.Value(complement) {
-					depends = true
-					return
+				sf := call.Call.StaticCallee()
+				if sf == nil || sf.Name() != "NewMerger" {
+					continue
 				}
-				switch x := v.(type) {
-				case *ssa.Phi:
-					for _, e := range x.Edges {
-						walk(e, d+1)
+				n++
+				c.Funcs[funcName(pf)] = true
+				arg := call.Call.Args[len(call.Call.Args)-1]
+				// does the flag depend on the strand?
+				depends := false
+				var walk func(v ssa.Value, d int)
+				walk = func(v ssa.Value, d int) {
+					if d > 5 {
+						return
 					}
-					// a && b lowers to a phi selected by a branch on a
-					for _, p := range x.Block().Preds {
-						if ifi, ok := p.Instrs[len(p.Instrs)-1].(*ssa.If); ok {
-							walk(ifi.Cond, d+1)
+					v = callerArg(v, fn) // a helper's parameter stands for what Align passes
+					if v == ssa.Value(complement) {
+						depends = true
+						return
+					}
+					switch x := v.(type) {
+					case *ssa.Phi:
+						for _, e := range x.Edges {
+							walk(e, d+1)
 						}
-					}
-				case *ssa.UnOp:
-					if x.Op == token.NOT {
+						// a && b lowers to a phi selected by a branch on a
+						for _, p := range x.Block().Preds {
+							if ifi, ok := p.Instrs[len(p.Instrs)-1].(*ssa.If); ok {
+								walk(ifi.Cond, d+1)
+							}
+						}
+					case *ssa.UnOp:
+						if x.Op == token.NOT {
+							walk(x.X, d+1)
+						}
+					case *ssa.BinOp:
 						walk(x.X, d+1)
+						walk(x.Y, d+1)
 					}
-				case *ssa.BinOp:
-					walk(x.X, d+1)
-					walk(x.Y, d+1)
 				}
-			}
-			walk(arg, 0)
-			if depends {
-				c.ok(rule, key, call.Pos(), "the self-comparison flag handed to the merger depends on the strand")
-			} else {
-				c.bad(rule, key, call.Pos(), "the merger is told to drop hits on or below the main diagonal on both strands: against the reverse complement the comparison is symmetric about the anti-diagonal and the filter has already dropped that half, so the main-diagonal test discards every inverted repeat whose copies lie at a, b with a+b > len-l — the complement-strand search of a self-comparison finds about half of them")
+				walk(arg, 0)
+				if depends {
+					c.ok(rule, key, call.Pos(), "the self-comparison flag handed to the merger depends on the strand")
+				} else {
+					c.bad(rule, key, call.Pos(), "the merger is told to drop hits on or below the main diagonal on both strands: against the reverse complement the comparison is symmetric about the anti-diagonal and the filter has already dropped that half, so the main-diagonal test discards every inverted repeat whose copies lie at a, b with a+b > len-l — the complement-strand search of a self-comparison finds about half of them")
+				}
 			}
 		}
 	}
